@@ -209,8 +209,10 @@ class Calls(Interp):
             return res
         e = labels[i]
         exc = VExc(e.rstrip("+"), [], exact=not e.endswith("+"))
+        env3 = dict(binding)
+        env3["exc"] = VObj(self.box(exc))
         for cl in c.raises.get(e, []):
-            self.assume_clause(cl, spec_env=dict(binding), old=pre, env={})
+            self.assume_clause(cl, spec_env=env3, old=pre, env={})
         raise PyRaise(exc)
 
     def havoc_modifies(self, c, binding):
@@ -291,11 +293,22 @@ class Calls(Interp):
             self.clause_cache[text] = ast.parse(split_tag(text)[1].strip(), mode="eval").body
         return self.clause_cache[text]
 
+    def in_view(self, text):
+        """Property view: when a check runs for one property, clauses tagged for other properties only are left out
+        (assuming less is sound; their obligations belong to the other property's check)."""
+        prop = self.opts.get("prop")
+        tags = split_tag(text)[0]
+        return prop is None or tags is None or prop in tags
+
     def assume_clause(self, text, spec_env=None, old=None, env=None):
+        if not self.in_view(text):
+            return
         self.pol = 1
         self.assume(self.eval_clause(text, spec_env, old, env))
 
     def prove_clause(self, name, text, kind="post", spec_env=None, old=None, env=None, level=None):
+        if not self.in_view(text):
+            return
         self.pol = -1
         g = self.eval_clause(text, spec_env, old, env)
         tags, body = split_tag(text)
@@ -440,6 +453,10 @@ class Calls(Interp):
         snap = self.old_state.snapshot()
         snap.env = self.st.env
         old = self.in_state(snap, self.spec_env, self.old_state, lambda: self.cont(self.ev(n.args[0])))
+        if self.pol == 1 and not self.bound_ids:
+            # assumed (callee postcondition / loop invariant): the stack is what it was
+            self.set_cont(self.ev(n.args[0]), old)
+            return VBool(True)
         same_items = len(cur.items) == len(old.items) and all(isinstance(a, VEnt) and isinstance(b, VEnt) and a.oid == b.oid for a, b in zip(cur.items, old.items))
         same_top = isinstance(cur.prefix_top, VEnt) and isinstance(old.prefix_top, VEnt) and cur.prefix_top.oid == old.prefix_top.oid
         if not (same_items and same_top):
